@@ -42,6 +42,21 @@ def handmade_impl():
     return c
 
 
+def handmade_impl2():
+    """another hand-wired implementation: output port y is read inside (by an inverter) and, after that, drives output port z directly"""
+    from kyupy.circuit import Circuit, Node, Line
+    c = Circuit('hand2')
+    a, b_ = Node(c, 'a'), Node(c, 'b')
+    g = Node(c, 'g', 'nor')
+    Line(c, a, g); Line(c, b_, g)
+    y, q, z = Node(c, 'y'), Node(c, 'q'), Node(c, 'z')
+    h = Node(c, 'h', 'not')
+    Line(c, g, y); Line(c, y, h); Line(c, h, q); Line(c, y, z)
+    for n in (a, b_, y, q, z):
+        c.io_nodes.append(n)
+    return c
+
+
 OPS = ['cell', 'fork', 'gof', 'limp', 'lexp', 'rml', 'rmn', 'ioapp', 'ioset', 'elim', 'copy', 'pickle', 'subst', 'chain', 'inst']
 OP = st.tuples(st.sampled_from(OPS + ['cell', 'fork', 'limp', 'limp', 'lexp', 'lexp', 'rml', 'rml', 'rmn', 'chain', 'inst', 'subst', 'elim']),
                st.integers(0, 999), st.integers(0, 999), st.integers(0, 5), st.integers(0, 5))
@@ -217,7 +232,7 @@ class Interp:
     def impls(self):
         if self._impls is None:
             from kyupy import bench
-            self._impls = [bench.parse(t) for t in IMPLS] + [handmade_impl()]
+            self._impls = [bench.parse(t) for t in IMPLS] + [handmade_impl(), handmade_impl2()]
         return self._impls
 
     def rederive(self):
